@@ -66,6 +66,9 @@ def _common_config(rng, profile):
     elif profile == 'stale' and rng.random() < 0.12:
         # path aliasing: a `..` path through a symlinked directory next to its lexical twin
         files = [f for f in files if f not in ('src/a/mod.py', 'src/mod.py')][:2] + ['src/link/../mod.py', 'src/mod.py']
+    if profile != 'diff' and rng.random() < 0.06:
+        # a file name that is not valid UTF-8 (as os.fsdecode() hands it over: with a lone surrogate)
+        files[0] = 'src/caf\udce9.py'
     ng = rng.choice([1, 1, 2, 3])
     grammars = rng.sample(corpus.VERSIONS, ng)
     if rng.random() < 0.12:
